@@ -59,6 +59,27 @@ impl Check for Simple {
     fn assumptions(&self) -> Vec<&'static str> {
         self.assumptions.to_vec()
     }
+    /// rare conditions this check is meant to reach; reported as `unreached_probes` when a
+    /// batch never hit them (they never change the verdict)
+    fn probes(&self) -> &'static [&'static str] {
+        match self.id {
+            "C01" => &[
+                "read.one_byte",
+                "probe.read_ended_inside_header",
+                "probe.read_ended_at_command_end",
+                "probe.read_spanned_2plus_commands",
+                "probe.parse_retried_3plus",
+                "probe.inbound_16m_fragment",
+            ],
+            "C02" => &["probe.read_spanned_2plus_commands", "probe.read_ended_inside_header"],
+            "C03" => &["probe.more_results_chain_3plus", "probe.err_after_rows", "fault.short_write", "fault.write_interrupted_benign"],
+            "C05" => &["probe.request_seq_ge_250", "probe.outbound_seq_wrapped", "probe.inbound_16m_fragment", "probe.outbound_msg_ge_16m", "probe.tls_runs"],
+            "C07" => &["probe.null_bitmap_2plus_bytes"],
+            "C12" => &["probe.read_spanned_2plus_commands", "probe.read_ended_inside_header", "probe.read_ended_at_command_end"],
+            "C18" => &["probe.tls_runs", "fault.short_write"],
+            _ => &[],
+        }
+    }
 }
 
 pub const COMMON_ASSUME_PUB: &[&str] = COMMON_ASSUME;
@@ -219,6 +240,10 @@ pub fn gen_giant_inbound(r: &mut Rng, seq: u8) -> Plan {
         cuts,
         tail: Tail::Fixed(*r.pick(&[2_097_152u32, 1_048_576, 4_194_304, 3_000_001])),
     };
+    if r.chance(1, 6) {
+        // "one giant read": the transport hands over whatever the server asks for
+        p.reads = ReadSched::all();
+    }
     p
 }
 
